@@ -1157,7 +1157,20 @@ impl DbInner {
 									return Ok(false)
 								}
 							},
-							LogAction::DropTable(_) | LogAction::DropRefCountTable(_) => continue,
+							LogAction::DropTable(id) =>
+								if self.columns.get(id.col() as usize).is_none() {
+									log::warn!(target: "parity-db", "Error validating log: invalid column id {}", id.col());
+									drop(reader);
+									self.log.clear_replay_logs();
+									return Ok(false)
+								},
+							LogAction::DropRefCountTable(id) =>
+								if self.columns.get(id.col() as usize).is_none() {
+									log::warn!(target: "parity-db", "Error validating log: invalid column id {}", id.col());
+									drop(reader);
+									self.log.clear_replay_logs();
+									return Ok(false)
+								},
 						}
 					}
 					reader.reset()?;
